@@ -20,8 +20,8 @@ checks with the checks in view:
   pinned test command on a scratch worktree carrying the change (`meta.json ->
   verified.existing_tests`: the set of stable-pass tests that no longer pass must be empty;
   where the full run (1.5-2.5 h each on the loaded machine) did not fit into the budget the
-  field says so and the author's own subset run is what stands).  Two rounds, 35 changes;
-  the second round was told which idea was already taken for the property.
+  field says so and the author's own subset run is what stands).  Three rounds, 42 changes;
+  later rounds were told which ideas were already taken for the property.
 * **Reverted fixes**: every `fix:` commit of /repo reverse-applied on its own
   (`git revert --no-commit` output kept in `seeded/reverts/` where a plain reverse apply
   conflicts), i.e. the defects the checks had found on the pinned tree, re-introduced.
@@ -38,10 +38,15 @@ What the exercise changed in the checks (each of these was a miss or a near miss
   resubmission: `C10-lockfree-fastpath-latches-errored`) and `wf-async` (two processes
   submitting one workflow through the asynchronous lock: `C10-pydrafilelock-released-in-aenter`),
   and counts the workflow constructor's executions, not only the task bodies.
-* C11 leaves crash residues also *without* the dead process's lock and info files (a copied
+* C11 has a workflow that nests another workflow (`C11-rerun-not-passed-to-nested-workflows`)
+  and a workflow with independent nodes submitted under `max_concurrent`; it leaves crash
+  residues also *without* the dead process's lock and info files (a copied
   cache) - `C11-load-result-clears-stale-dirs` spares locked directories.
 * C12 got the `pool` cases (the killed process is a pool worker and the submission goes
-  on) for `C12-rmtree-only-if-result-exists`.
+  on) for `C12-rmtree-only-if-result-exists`, and resubmission through the *asynchronous*
+  path after the crash of a workflow submission (`C12-async-lock-waits-for-file-to-vanish`:
+  the stale lock of the dead process is a workflow lock and the waiter is `PydraFileLock`);
+  C18 places its stale locks on workflow jobs as well for the same reason.
 * C14/C15/C16/C17/C18 vary `max_concurrent` (`C15-only-newly-runnable-returned`,
   `C17-cut-jobs-dropped-from-queued`, `C17-futured-marked-before-room-check`); C16 judges
   the number of jobs *dispatched to worker processes* (`limit-exceeded-dispatch`), not only
@@ -53,7 +58,10 @@ What the exercise changed in the checks (each of these was a miss or a near miss
   scheduler kills are aimed *inside file writes* of the payload (torn `_info.json`,
   `_job.pklz`, `_result.pklz`), which makes the reverts of b380cd4e / 75c6ffdf reliably
   visible at every seed and exposed the genuine defect repaired by ef17fac3.
-* C13 has shell commands killed by a signal (`C13-negative-returncode-not-failure`).
+* C13 has shell commands killed by a signal (`C13-negative-returncode-not-failure`) and a
+  workflow with two independent failing-once nodes submitted under `max_concurrent`
+  (a side remark of the agent behind `C13-partial-dict-check-removed`; exposed the genuine
+  defect repaired by 1df0a223).
 * C06 has values of user classes (enum members, private/public attributes, slots,
   dataclass, attrs) and path-vs-str pairs (`C06-private-attrs-not-hashed`).
 * C07 generates dicts with partially ordered keys on purpose
